@@ -34,6 +34,11 @@ def strategy_(draw, tier):
         if fate == "changed":
             m2, infos = multi.mutate_many(draw, m, 1, 2)
         libs.append({"name": "lib%02d.so" % i, "fate": fate, "model": m, "mutant": m2})
+        if fate == "changed" and draw(st.integers(0, 2)) == 0:
+            # one or two more binaries with the same content under other names: pairs of exactly equal size, whose relative
+            # order in the report no size comparison can decide
+            for j in range(draw(st.integers(1, 2))):
+                libs.append({"name": "lib%02d%s.so" % (i, "xy"[j]), "fate": fate, "model": m, "mutant": m2})
     ws = sorted(set(S._pick(draw, WORKERS) for _ in range(3)))
     return {"libs": libs, "cfg": cfg, "workers": ws, "yield_seed": draw(st.integers(1, 10 ** 6))}
 
@@ -71,6 +76,7 @@ def run_case(case, cx):
         r = cbuild.tool("abipkgdiff", opts + [p1, p2], env=env, timeout=600)
         cx.evaluations += 1
         cx.cls("workers=%d" % w)
+        cx.cls("equal-size-changed-pairs=%s" % any(l["name"][-4] in "xy" for l in case["libs"]))
         if nlibs >= 8 and changed:
             cx.nt({"case": M.sha(case), "w": w})
         if r.timeout:
